@@ -659,6 +659,32 @@ func checkStanzaError(t fataler, se stanza.Error, payload *node, invalid bool, m
 			return b.Bytes(), err
 		})
 		add("Wrap(payload)", func() ([]byte, error) { return viaCopy(se.Wrap(payload.reader())) })
+		// the reader is the encoding of the value it was obtained from: what the
+		// application does with the map behind Text afterwards (a handler that
+		// prepares a batch of replies re-using one map) does not change it
+		add("TokenReader, the Text map rewritten before the reader is consumed", func() ([]byte, error) {
+			se2 := se
+			if se.Text != nil {
+				se2.Text = make(map[string]string, len(se.Text))
+				for k, v := range se.Text {
+					se2.Text[k] = v
+				}
+			}
+			r := se2.TokenReader()
+			first := true
+			for k := range se2.Text {
+				if first {
+					delete(se2.Text, k)
+					first = false
+					continue
+				}
+				se2.Text[k] = "rewritten afterwards"
+			}
+			if se2.Text != nil {
+				se2.Text["zz"] = "added afterwards"
+			}
+			return viaCopy(r)
+		})
 	}
 	var decoded []stanza.Error
 	for _, o := range outs {
